@@ -432,6 +432,13 @@ class _SyncWs:
         self.timeout = conn['timeout']
         self.connected = True
 
+    def _log(self, op, item=''):
+        """L2: one record per websocket operation of the client (hub.primlog)."""
+        lg = self.w.hub.primlog
+        if lg is not None:
+            lg.append({'t': getattr(self.w.hub.current, 'proc', None), 'op': op, 'item': item,
+                       'q': 'ws'})
+
     def settimeout(self, t):
         self.timeout = t
         self.w.out.append({'k': 'wssettimeout', 'to': int(round(t / TICK))})
@@ -439,16 +446,24 @@ class _SyncWs:
     def send(self, data):
         if self.conn['state'] != 'open':
             raise _WsClosed('closed')
-        self.w.out.append({'k': 'wstx', 'f': cli_sent_token(data, 'ws')})
+        tok = cli_sent_token(data, 'ws')
+        self._log('ws_send', tok)
+        self.w.out.append({'k': 'wstx', 'f': tok})
+        hook = getattr(self.w, 'on_ws_send', None)
+        if hook:
+            hook(tok)
 
     def send_binary(self, data):
         if self.conn['state'] != 'open':
             raise _WsClosed('closed')
+        self._log('ws_send', cli_sent_token(data, 'wsbin'))
         self.w.out.append({'k': 'wstx', 'f': cli_sent_token(data, 'wsbin')})
 
     def recv(self):
+        self._log('ws_recv_enter')
         if self.conn['state'] != 'open' and not self.conn['inq'].items:
             self.connected = False
+            self._log('ws_recv_closed')
             raise _WsClosed('closed')
         try:
             item = self.conn['inq'].get(timeout=self.timeout)
@@ -457,10 +472,12 @@ class _SyncWs:
         if item is _CLOSED:
             self.conn['inq'].items.insert(0, _CLOSED)
             self.connected = False
+            self._log('ws_recv_closed')
             raise _WsClosed('closed')
         return item
 
     def close(self):
+        self._log('ws_close')
         if self.conn['state'] == 'open':
             self.conn['state'] = 'closedbyclient'
             self.connected = False
